@@ -48,6 +48,9 @@ def main():
         json.dump(meta, open(mp, "w"), indent=1)
         own = res[meta["property"]]
         ok = meta["property"] in meta["caught_by"]
+        if not ok and meta.get("uncaught_reason"):
+            print("%-7s UNCAUGHT (recorded): %s" % (sid, meta["uncaught_reason"][:150]), flush=True)
+            continue
         if not ok:
             missed.append(sid)
         print("%-7s %s own-check exit %d, %d violations, %d undecided, %.0fs | caught by %s" % (
